@@ -751,7 +751,7 @@ def run(run: Run):
         if accept_rows:
             texts.append(coq_accept(accept_rows))
         try:
-            outs = coq_eval_many('c02', texts)
+            outs = coq_eval_many('c02', texts, timeout=1500)
             nbad = 0
             for out in (outs[:-1] if accept_rows else outs):
                 vals = parse_eval(out)
